@@ -376,6 +376,20 @@ TraceThreadDigest ==
         /\ stack' = base
   /\ l' = l + 1
 
+\* C18: a thread observed, while other threads were observing OTHER states, the state that the event
+\* on line e.line observed sequentially: the digests must agree
+TracePoolDigest ==
+  /\ l <= Len(Rec) /\ Rec[l].ev = "pdig"
+  /\ LET e == Rec[l] IN
+       /\ (Enforced("C18") =>
+             /\ Chk("C18", "a thread panicked while observing a state concurrently: " \o e.dg,
+                    SubSeq(e.dg, 1, 6) # "panic:")
+             /\ Chk("C18", "a state observed concurrently with other states differs from its sequential observation",
+                    e.line \in 1..Len(Rec) /\ Rec[e.line].ev \in {"reset", "act"} /\ Rec[e.line].dg = e.dg))
+       /\ TLCSet(24, TLCGet(24) + 1)
+       /\ stack' = SubSeq(stack, 1, Len(stack) - e.pop)
+  /\ l' = l + 1
+
 \* C18: the shared state observed again after the threads have joined
 TraceReobserve ==
   /\ l <= Len(Rec) /\ Rec[l].ev = "reobs"
@@ -401,7 +415,7 @@ TracePanic ==
   /\ stack' = <<>>
   /\ l' = l + 1
 
-TraceNext == TraceReset \/ TraceAct \/ TraceThreadDigest \/ TraceReobserve \/ TracePanic
+TraceNext == TraceReset \/ TraceAct \/ TraceThreadDigest \/ TracePoolDigest \/ TraceReobserve \/ TracePanic
 
 TraceSpec == TraceInit /\ [][TraceNext]_tvars
 
